@@ -125,4 +125,41 @@ theorem unpadBlocks_pad (s : Pad) (fill : Filler) (msg : Bytes) :
   rw [this, List.take_left']
   rfl
 
+/-! ### name tables -/
+
+theorem lookupArms_isSome (t : List Arm) (n : Bytes) :
+    (lookupArms t n).isSome = true ↔ n ∈ t.flatMap (·.1) := by
+  induction t with
+  | nil => simp [lookupArms]
+  | cons arm rest ih =>
+    obtain ⟨pats, a⟩ := arm
+    simp only [lookupArms, List.flatMap_cons, List.mem_append]
+    by_cases h : pats.contains n = true
+    · simp [List.contains_iff_mem.mp h]
+    · have h' : ¬ n ∈ pats := fun hm => h (List.contains_iff_mem.mpr hm)
+      simp [h', ih]
+
+theorem encryptArms_eq_decryptArms : encryptArms = decryptArms := rfl
+
+theorem validNames_sub : ∀ x ∈ validNames, x ∈ encryptArms.flatMap (·.1) := by decide
+theorem validNames_sup : ∀ x ∈ encryptArms.flatMap (·.1), x ∈ validNames := by decide
+
+/-! ### sizes and outcomes -/
+
+theorem checkSizes_none_iff (a : Alg) (key iv : Bytes) :
+    checkSizes a key iv = none ↔ key.length = keyLen a ∧ iv.length = ivLen a := by
+  unfold checkSizes
+  by_cases hk : key.length = keyLen a <;> by_cases hi : iv.length = ivLen a <;> simp [hk, hi]
+
+theorem orPanic_eq_ok {ε : Type} (o : Option Bytes) (c : Bytes) :
+    (orPanic o : Res ε) = .ok c ↔ o = some c := by
+  cases o <;> simp [orPanic]
+
+theorem orPanic_eq_panic {ε : Type} (o : Option Bytes) :
+    (orPanic o : Res ε) = .panic ↔ o = none := by
+  cases o <;> simp [orPanic]
+
+theorem orPanic_ne_err {ε : Type} (o : Option Bytes) (e : ε) : (orPanic o : Res ε) ≠ .err e := by
+  cases o <;> simp [orPanic]
+
 end Crypt
